@@ -188,7 +188,7 @@ static int bp_frame(const mjModel* m, mjData* d, mjtNum frame[9]) {
 static void run_scene(uint64_t seed, int nb, int dsbl, int enbl, double omargin) {
   mjSpec* s = scene_spec(seed, nb);
   mjModel* m = mj_compile(s, NULL);
-  if (!m) { printf("SCENE fail %s\nEND\n", mjs_getError(s)); mj_deleteSpec(s); return; }
+  if (!m) { printf("SCENE fail\nEND\n"); mj_deleteSpec(s); return; }
   m->opt.disableflags = dsbl; m->opt.enableflags = enbl; m->opt.o_margin = omargin;
   mjData* d = mj_makeData(m);
   scene_state(m, d, seed);
@@ -307,7 +307,7 @@ static void run_tie(double x0, double pen, int order) {
     mjsGeom* g = mjs_addGeom(b, NULL); g->type = mjGEOM_BOX; g->size[0] = g->size[1] = g->size[2] = 0.5;
   }
   mjModel* m = mj_compile(s, NULL);
-  if (!m) { printf("TIE fail %s\n", mjs_getError(s)); mj_deleteSpec(s); return; }
+  if (!m) { printf("TIE fail\n"); mj_deleteSpec(s); return; }
   mjData* d = mj_makeData(m);
   mj_forward(m, d);
   int g_left = order ? 1 : 0, g_right = order ? 0 : 1;
